@@ -92,7 +92,7 @@ def gen(rng, knobs):
             script.insert(rng.randint(1, len(script)), ["disconnect"])
         clients.append({"script": script, "slow": rng.random() < 0.2})
     pre = [h.regular() for _ in range(rng.randint(0, 4))]
-    return {"backend": backend, "clients": clients, "preload": pre,
+    return {"backend": backend, "clients": clients, "preload": pre, "p_buffered": rng.choice([0.0, 0.0, 0.3, 0.8]),
             "sched": {"client": rng.choice([0.3, 1.0, 3.0]), "sql": rng.choice([0.2, 1.0, 3.0]),
                       "exec": rng.choice([0.1, 1.0, 3.0]), "writer": rng.choice([0.1, 1.0, 3.0]),
                       "pool": rng.choice([0.2, 1.0, 3.0]), "wsend": rng.choice([0.2, 1.0]),
@@ -125,7 +125,7 @@ INF = 10 ** 12
 
 def run(case, sim):
     backend = case["backend"]
-    w = relay.RelayWorld(sim, backend, case["clients"], preload=case.get("preload"))
+    w = relay.RelayWorld(sim, backend, case["clients"], preload=case.get("preload"), p_buffered=case.get("p_buffered", 0.0))
     stored_answers = {}
 
     async def at_quiescence(world):
